@@ -19,6 +19,7 @@ pub mod jwtk;
 pub mod c01;
 pub mod c02;
 pub mod present;
+pub mod small;
 
 /// Start-up assertions about the build the harness measures (DESIGN.md section 4).
 pub fn selfcheck() {
